@@ -197,6 +197,10 @@ func (c *Ctx) Guard(desc string, f func()) (pi *PanicInfo, skipped bool) {
 	return nil, false
 }
 
+// SetCaseBudget changes the CPU budget (seconds) of the cases guarded from now on in this
+// worker (used to spend less on inputs inside a known non-terminating region).
+func (c *Ctx) SetCaseBudget(seconds float64) { curBudget.Store(int64(seconds * 1e9)) }
+
 // GuardFail is Guard plus the standard reporting of a panic as a failure.
 // It returns true when f completed normally.
 func (c *Ctx) GuardFail(desc string, features []string, f func()) bool {
